@@ -21,7 +21,7 @@
    message-part positions of notes/applied/C12-msg-part-positions.diff; the subject of C06) -- the
    caller does not get a nil error in that case either. *)
 From Soy Require Import Model.Bytes Model.Num Model.Values Model.Outcome Model.Ast
-  Model.Interp Spec.Writer Proofs.InterpLogic Proofs.WriterProofs.
+  Model.Interp Spec.Writer Spec.Safety Proofs.InterpLogic Proofs.WriterProofs Proofs.WriterSafety.
 Open Scope N_scope.
 
 (* if the writer refuses any Write call of the fault-free render (the k-th call with k below
@@ -42,6 +42,17 @@ Proof.
   destruct (write_fault_surfaces_l cf fuel name id data fid cl bl H) as [-> | ->]; reflexivity.
 Qed.
 Print Assumptions write_fault_never_ok.
+
+(* with C06's premise -- every node position of the registry lies inside the source recorded for its
+   template, which is what compilation guarantees (Proofs/SafetyCompile.v) and what excludes the panic
+   of Registry.LineNumber inside errRecover -- the refused write surfaces as exactly the write error *)
+Theorem write_fault_is_error :
+  forall cf fuel name id data fid cl bl,
+    reg_pos_ok (c_reg cf) = true ->
+    refuses cl bl (rr_writes (render cf fuel name id data None None fid)) ->
+    rr_outcome (render cf fuel name id data cl bl fid) = Err e_write.
+Proof. exact write_fault_is_error_l. Qed.
+Print Assumptions write_fault_is_error.
 
 (* whatever the writer does, what it accepted is a prefix of the fault-free output *)
 Theorem accepted_is_prefix :
@@ -116,6 +127,11 @@ Example ex_fault_free :
   rr_outcome (ex_run None None) = Ok tt /\
   rr_writes (ex_run None None) = [b "<p>"; b "a"; b "&lt;"; b "b"; b "</p>"].
 Proof. vm_compute. split; reflexivity. Qed.
+
+Example ex_reg_pos_ok : reg_pos_ok (c_reg ex_cfg) = true.
+Proof. vm_compute. reflexivity. Qed.
+Example ex_is_error : rr_outcome (ex_run (Some 2%nat) None) = Err e_write.
+Proof. apply write_fault_is_error; [exact ex_reg_pos_ok | left; exists 2%nat; split; [reflexivity | vm_compute; lia]]. Qed.
 
 Example ex_refuses_call : refuses (Some 2%nat) None (rr_writes (ex_run None None)).
 Proof. left. exists 2%nat. split; [reflexivity | vm_compute; lia]. Qed.
